@@ -235,3 +235,4 @@ import props_infer  # noqa: E402  (registers C14, C15, C16)
 import props_sub  # noqa: E402  (registers C29)
 import props_mini  # noqa: E402  (registers C01, C03, C04, C06, C28)
 import props_builtin  # noqa: E402  (registers C07, C08, C21)
+import props_text  # noqa: E402  (registers C22, C23, C24)
